@@ -481,9 +481,11 @@ def check_fit(rec, A, B, sigma, nc, case):
         mask = rec['ma'][0]
         X = deleted(rec['a'], mask)
         D = deleted(rec['b'], mask)
-        # the fitters pool the data with util/pooling.py:pool_rdm(data, method) (no sigma_k)
+        # the fitters pool the data with util/pooling.py:pool_rdm(data, method, sigma_k): each training RDM is
+        # normalised under V(sigma_k) (since the repository fix "regression fitters pool ... sigma_k"; pooling under
+        # the default V was the defect C08/a/fit_regress/*_cov/sigma_k-given/multi-rdm)
         if m in COV_METHODS:
-            y = vnorm_pool(D, v_block(nc, None, mask), kind == 'z')
+            y = vnorm_pool(D, v_block(nc, sigma, mask), kind == 'z')
         else:
             y = pool_kernel(kind, D)
         if not np.all(np.isfinite(y)) or (kind == 'z' and np.ptp(y) < 1e-9):
